@@ -4,10 +4,10 @@
 #include "hist_gen.hpp"
 
 // ---------------------------------------------------------------- C17: detected misuse (secure / debug builds)
-struct AreaOf { uintptr_t p; size_t used = 0, bsize = 0, cap = 0; uintptr_t lo = 0, hi = 0; bool found = false; };
+struct AreaOf { uintptr_t p; size_t used = 0, bsize = 0, fbs = 0, cap = 0; uintptr_t lo = 0, hi = 0; bool found = false; };
 static bool area_of_cb(const mi_heap_t*, const mi_heap_area_t* area, void* block, size_t, void* arg) {
   if (block) return true; AreaOf* a = (AreaOf*)arg; uintptr_t lo = (uintptr_t)area->blocks, hi = lo + area->reserved;
-  if (a->p >= lo && a->p < hi) { a->found = true; a->used = area->used; a->bsize = area->block_size; a->cap = area->full_block_size ? area->reserved / area->full_block_size : 0; a->lo = lo; a->hi = hi; return false; }
+  if (a->p >= lo && a->p < hi) { a->found = true; a->used = area->used; a->bsize = area->block_size; a->fbs = area->full_block_size; a->cap = area->full_block_size ? area->reserved / area->full_block_size : 0; a->lo = lo; a->hi = hi; return false; }
   return true;
 }
 void Exec::op_misuse(const Op& op) {
@@ -18,6 +18,9 @@ void Exec::op_misuse(const Op& op) {
   // the block's area must keep at least one other live block (a second free after the whole area was released is outside the claim)
   AreaOf ao; ao.p = (uintptr_t)b.p; mi_heap_visit_blocks(m.heaps[b.home].h, false, &area_of_cb, &ao);
   if (!ao.found || ao.used < 2 || ao.cap < 2) { count(C_EXCLUDED); return; }
+  // (`used` still counts blocks that another thread freed and the owner has not collected yet: ask the model as well, or the whole area may
+  //  be released by the first free and legitimately be built anew, forged link included)
+  { size_t others_live = 0; for (auto it = m.live.lower_bound(ao.lo); it != m.live.end() && it->first < ao.hi; ++it) if (it->second != s) others_live++; if (others_live < 1) { count(C_EXCLUDED); return; } }
   verify_blk(s, "before-misuse");
   uint8_t* p = b.p; size_t n = b.n; int home = b.home; mi_heap_t* hp = m.heaps[home].h;
   int eagain0 = mi_errors[0], efault0 = mi_errors[1], other0 = mi_errors[2] + mi_errors[5];
@@ -64,6 +67,9 @@ void Exec::op_misuse(const Op& op) {
   }
   else if (kind == "forge") {
     uint64_t x = op.num("x", 0x9e3779b97f4a7c15ull) | 0x0001000100010001ull;   // (also after numeric shrinking)
+    // the link is the first word of the allocator's block: an aligned allocation may have returned an interior pointer, and a write there changes
+    // only some bytes of the link (or none), which can decode into the same area -- outside the claim. Only blocks whose pointer is a block start.
+    if (ao.fbs == 0 || ((uintptr_t)b.p - ao.lo) % ao.fbs != 0) { count(C_EXCLUDED); return; }
     if (op.num("thread", 0) && !known_f14_off) {
       // known finding F14: the first remote free into a page goes to the heap's delayed-free list, whose links are followed without validation.
       // Excluded by construction: another block of the same page is freed remotely first, so that the target goes to the page's thread-free list.
@@ -77,6 +83,7 @@ void Exec::op_misuse(const Op& op) {
     if (op.num("thread", 0)) { ThreadJob j; j.ptrs.push_back(p); run_thread(j); for (int i = 1; i < NHEAPS; i++) if (m.heaps[i].alive) m.heaps[i].pending_remote = true; } else mi_free(p);
     count(C_FREES);
     if (mi_errors[1] != efault0) fail_now("misuse-first-free-error", "op#%ld the legal free of %p reported EFAULT", opi, p);
+    if (getenv("VF_DEBUG_FORGE")) { uint64_t w0; memcpy(&w0, p, 8); fprintf(stderr, "forge: p=%p n=%zu a=%zu o=%zu u=%zu area=[%zx,%zx) bsize=%zu used=%zu link=0x%llx x=0x%llx\n", p, n, b.a, b.o, b.u, ao.lo, ao.hi, ao.bsize, ao.used, (unsigned long long)w0, (unsigned long long)x); }
     uint64_t w; memcpy(&w, p, 8); w ^= x; memcpy(p, &w, 8);   // the misuse: the free-list link is overwritten (always different from the stored value)
     expect_err = EFAULT;
     // allocate the class until p comes back (at most capacity allocations + slack): the forged link must be reported, not followed
